@@ -125,10 +125,36 @@ def restart_helper(S, rep):
         raise Unsupported("anchor vanished: restart_simulation")
     from ..pycfg import FunctionFacts
     ff = FunctionFacts(fn)
+    params = [a.arg for a in fn.args.args]
+    if len(params) < 5:
+        raise Unsupported("restart_simulation: signature changed: %s" % params)
+    sim_p, io_p, rod_p, forcing_p = params[:4]       # documented order: body simulator, flow IO, rod IO, forcing-grid IO
+    loads = ff.calls_matching(lambda c: isinstance(c.func, ast.Attribute) and c.func.attr in ("load", "load_state"))
+
+    def recv(c):
+        return ast.unparse(c.func.value)
+
+    def target_of(call):
+        """local name a call's result is assigned to"""
+        for st in ast.walk(fn):
+            if isinstance(st, ast.Assign) and st.value is call and len(st.targets) == 1 and isinstance(st.targets[0], ast.Name):
+                return st.targets[0].id
+        return None
+    io_loads = [c for c in loads if c.func.attr == "load" and recv(c) == io_p]
+    state_loads = [c for c in loads if c.func.attr == "load_state"]
+    # the index variable is the one formatted into the flow checkpoint's file name
+    idx_names = set()
+    for c in io_loads:
+        for n in ast.walk(c):
+            if isinstance(n, ast.FormattedValue):
+                idx_names |= {x.id for x in ast.walk(n.value) if isinstance(x, ast.Name)}
+    if len(io_loads) != 1 or len(idx_names) != 1:
+        raise Unsupported("restart_simulation: cannot identify the flow checkpoint load / its index (%d loads, index names %s)" % (len(io_loads), sorted(idx_names)))
+    latest_name = next(iter(idx_names))
     # 1. the index chosen is the largest of the parsed indices (idiom table; unknown idiom = analysis error)
-    latest = ff.single_assignment("latest")
+    latest = ff.single_assignment(latest_name)
     if latest is None:
-        raise Unsupported("restart_simulation: cannot find the single assignment of `latest`")
+        raise Unsupported("restart_simulation: cannot find the single assignment of `%s`" % latest_name)
     verdict, idx_src = classify_latest(latest)
     if verdict == "unknown":
         raise Unsupported("restart_simulation: unrecognised way of choosing the checkpoint index: %s" % ast.unparse(latest))
@@ -142,7 +168,6 @@ def restart_helper(S, rep):
            "the checkpoint index is computed as %s over %s elements%s" % (ast.unparse(latest), et, "" if numeric else
                ": the largest *string* is not the largest index once the indices have different digit counts (sopht_9999 vs sopht_10000)"),
            key="C18.b|latest|%s|%s" % (ast.unparse(latest), et))
-    ok = verdict.startswith("ok") and numeric
     # the indices come from the numeric suffix of the sopht_*.h5 names
     s = ast.unparse(src).replace('"', "'") if src is not None else ""
     if "glob(" not in s:
@@ -150,33 +175,36 @@ def restart_helper(S, rep):
     ok2 = "'sopht_*.h5'" in s and ("split('_')[-1]" in s or "rsplit('_', 1)[-1]" in s or "rsplit('_', 1)[1]" in s)
     rep.ob("C18.b", "indices parsed from sopht_*.h5 names", ok2, s, key="C18.b|indices|%s" % s[:80])
     # 2. empty directory -> raise before any load
-    loads = ff.calls_matching(lambda c: isinstance(c.func, ast.Attribute) and c.func.attr in ("load", "load_state"))
     guard = ff.raise_guard_on_empty(idx_src) if idx_src else None
     ok3 = guard is not None and all(guard.lineno < c.lineno for c in loads) and ff.dominates_all(guard, loads)
     rep.ob("C18.b", "no checkpoint -> raise before any load", bool(ok3),
            "a `raise` guarded by len(%s) == 0 must dominate every load" % idx_src, key="C18.b|empty-guard")
     # 3. all three files of the chosen index are loaded
     fmt = [ast.unparse(c) for c in loads]
-    need = {"io.load": "sopht_", "rod_io.load": "rod_", "forcing_io.load": "forcing_grid_"}
-    for recv, prefix in need.items():
-        hit = [f for f in fmt if f.startswith(recv + "(") and prefix in f and "latest" in f]
-        rep.ob("C18.b", "%s of the chosen index" % recv, len(hit) == 1, "calls: %s" % [f for f in fmt if f.startswith(recv)],
-               key="C18.b|load|%s|%s" % (recv, [f for f in fmt if f.startswith(recv)]))
+    need = {io_p: "sopht_", rod_p: "rod_", forcing_p: "forcing_grid_"}
+    for r, prefix in need.items():
+        hit = [c for c in loads if c.func.attr == "load" and recv(c) == r and prefix in ast.unparse(c)
+               and any(isinstance(x, ast.Name) and x.id == latest_name for x in ast.walk(c))]
+        rep.ob("C18.b", "%s.load of the chosen index" % r, len(hit) == 1, "calls: %s" % [f for f in fmt if f.startswith(r + ".")],
+               key="C18.b|load|%s|%s" % (r, [f for f in fmt if f.startswith(r + ".")]))
     # 4. time mismatch raises; the normal return is the flow checkpoint's time
-    ct = ff.single_assignment("curr_time")
-    ok4 = ct is not None and ast.unparse(ct).startswith("io.load(")
+    flow_t = target_of(io_loads[0])
+    body_t = target_of(state_loads[0]) if len(state_loads) == 1 else None
+    if flow_t is None or body_t is None:
+        rep.ob("C18.b", "flow and body times are read from their checkpoints", False,
+               "the flow checkpoint's time (%s.load) or the body's time (load_state) is not kept: %s" % (io_p, fmt), key="C18.b|times-kept")
+        return
+
+    def is_mismatch(t):
+        return sorted(ast.unparse(x) for x in [t.left] + t.comparators) == sorted([flow_t, body_t]) and isinstance(t.ops[0], ast.NotEq)
+    ok5 = ff.raise_on_condition_dominates_returns(is_mismatch)
     rep.ob("C18.b", "returned time is the one read from the flow checkpoint",
-           ok4 and (ff.all_returns_are("curr_time") or (ff.all_returns_are("rod_time") and ff.raise_on_condition_dominates_returns(
-               lambda t: sorted(ast.unparse(x) for x in [t.left] + t.comparators) == ["curr_time", "rod_time"] and isinstance(t.ops[0], ast.NotEq)))),
-           "curr_time = %s; returns: %s" % (ast.unparse(ct) if ct is not None else None, ff.return_exprs()),
-           key="C18.b|return|%s" % ff.return_exprs())
-    ok5 = ff.raise_on_condition_dominates_returns(lambda t: sorted(ast.unparse(x) for x in [t.left] + t.comparators) == ["curr_time", "rod_time"]
-                                                  and isinstance(t.ops[0], ast.NotEq))
-    rep.ob("C18.b", "flow/body time mismatch -> raise", ok5, "a raise under `curr_time != rod_time` must precede every return",
+           ff.all_returns_are(flow_t) or (ff.all_returns_are(body_t) and ok5),
+           "%s = %s; returns: %s" % (flow_t, ast.unparse(io_loads[0]), ff.return_exprs()), key="C18.b|return|%s" % ff.return_exprs())
+    rep.ob("C18.b", "flow/body time mismatch -> raise", ok5, "a raise under `%s != %s` must precede every return" % (flow_t, body_t),
            key="C18.b|time-guard")
-    rt = ff.single_assignment("rod_time")
-    rep.ob("C18.b", "body time comes from the body's own checkpoint", rt is not None and "load_state" in ast.unparse(rt),
-           "rod_time = %s" % (ast.unparse(rt) if rt is not None else None), key="C18.b|rod_time")
+    rep.ob("C18.b", "body time comes from the body's own checkpoint", sim_p in ast.unparse(state_loads[0]),
+           "%s = %s" % (body_t, ast.unparse(state_loads[0])), key="C18.b|rod_time")
 
 
 def sim_liveness(S, cfg, rep):
